@@ -103,6 +103,94 @@ Proof.
   apply wf_bytes_app. split; [apply enc_b128_wf | apply flat_map_wf, enc_b128_wf].
 Qed.
 
+(* ---------- dec_oid accepts only what enc_oid writes ---------- *)
+Lemma b128_le0 f m acc : m <= 0 -> b128 f m acc = acc.
+Proof. intros H. destruct f; cbn [b128]; destruct (Z.leb_spec m 0); try reflexivity; lia. Qed.
+
+Lemma b128_irrel f1 : forall f2 m acc, m < 128 ^ Z.of_nat f1 -> m < 128 ^ Z.of_nat f2 ->
+  b128 f1 m acc = b128 f2 m acc.
+Proof.
+  induction f1 as [|f1 IH]; intros f2 m acc H1 H2.
+  - change (128 ^ Z.of_nat 0) with 1 in H1. rewrite !b128_le0 by lia. reflexivity.
+  - destruct f2 as [|f2].
+    + change (128 ^ Z.of_nat 0) with 1 in H2. rewrite !b128_le0 by lia. reflexivity.
+    + rewrite pow_succ_nat in H1, H2. cbn [b128]. destruct (Z.leb_spec m 0); [reflexivity|].
+      apply IH; lia.
+Qed.
+
+Lemma b128_app f : forall m acc x, b128 f m (acc ++ x) = b128 f m acc ++ x.
+Proof.
+  induction f as [|f IH]; intros m acc x; cbn [b128]; destruct (m <=? 0); try reflexivity.
+  rewrite app_comm_cons. apply IH.
+Qed.
+
+(* the continuation octets of m, with canonical fuel *)
+Definition B (m : Z) (acc : bytes) : bytes := b128 (zfuel m) m acc.
+
+Lemma B_eq f m acc : 0 <= m < 128 ^ Z.of_nat f -> b128 f m acc = B m acc.
+Proof. intros H. apply b128_irrel; [lia | apply zfuel_128; lia]. Qed.
+
+Lemma B_0 acc : B 0 acc = acc.
+Proof. apply b128_0. Qed.
+
+Lemma B_step m acc : 0 < m -> B m acc = B (m / 128) (128 + m mod 128 :: acc).
+Proof.
+  intros H. pose proof (zfuel_128 m ltac:(lia)) as Hf. pose proof (pow_pos_nat 128 (zfuel m)).
+  unfold B at 1. rewrite (b128_irrel (zfuel m) (S (zfuel m))); [|lia|rewrite pow_succ_nat; lia].
+  cbn [b128]. destruct (Z.leb_spec m 0); [lia|]. apply B_eq. lia.
+Qed.
+
+Lemma enc_b128_B n : 0 <= n -> enc_b128 n = B (n / 128) [n mod 128].
+Proof.
+  intros H. unfold enc_b128. apply B_eq. pose proof (zfuel_128 n H). pose proof (pow_pos_nat 128 (zfuel n)). lia.
+Qed.
+
+Lemma B_app m acc x : B m (acc ++ x) = B m acc ++ x.
+Proof. apply b128_app. Qed.
+
+Lemma dec_arcs_canon b : forall cur start l,
+  (start = true -> cur = 0) -> (start = false -> 0 < cur) ->
+  dec_arcs b cur start = Some l ->
+  Forall (fun x => 0 <= x) l /\ flat_map enc_b128 l = B cur b.
+Proof.
+  induction b as [|x r IH]; intros cur start l Ht Hf H; cbn [dec_arcs] in H.
+  - destruct start; [|discriminate]. apply some_inj in H. subst l. rewrite (Ht eq_refl), B_0.
+    split; [constructor | reflexivity].
+  - destruct (is_byte x) eqn:Hx; [|discriminate]. apply is_byte_iff in Hx.
+    destruct (start && (x =? 128)) eqn:H128; [discriminate|].
+    assert (Hcur : 0 <= cur) by (destruct start; [rewrite Ht by reflexivity; lia | specialize (Hf eq_refl); lia]).
+    destruct (Z.ltb_spec x 128) as [Hlt|Hge].
+    + destruct (dec_arcs r 0 true) as [l0|] eqn:E; [|discriminate]. apply some_inj in H. subst l.
+      destruct (IH 0 true l0 ltac:(reflexivity) ltac:(discriminate) E) as [Hl0 Hfm]. rewrite B_0 in Hfm.
+      split; [constructor; [lia | exact Hl0]|].
+      cbn [flat_map]. rewrite Hfm, enc_b128_B by lia.
+      replace ((cur * 128 + x) / 128) with cur by lia. replace ((cur * 128 + x) mod 128) with x by lia.
+      rewrite <- B_app. reflexivity.
+    + assert (Hpos : 0 < cur * 128 + (x - 128)).
+      { destruct start; [|specialize (Hf eq_refl); lia]. rewrite Ht by reflexivity. cbn [andb] in H128. lia. }
+      destruct (IH _ false l ltac:(discriminate) ltac:(intros _; exact Hpos) H) as [Hl Hfm].
+      split; [exact Hl|]. rewrite Hfm, B_step by exact Hpos.
+      replace ((cur * 128 + (x - 128)) / 128) with cur by lia.
+      replace (128 + (cur * 128 + (x - 128)) mod 128) with x by lia. reflexivity.
+Qed.
+
+Theorem dec_oid_canon b arcs : dec_oid b = Some arcs -> enc_oid arcs = Some b.
+Proof.
+  unfold dec_oid. destruct (dec_arcs b 0 true) as [[|v l]|] eqn:E; try discriminate.
+  intros H. apply some_inj in H.
+  destruct (dec_arcs_canon b 0 true (v :: l) ltac:(reflexivity) ltac:(discriminate) E) as [Hl Hfm].
+  rewrite B_0 in Hfm. cbn [flat_map] in Hfm. inversion Hl as [|? ? Hv Hl']; subst.
+  assert (Hfb : forallb (fun x => 0 <=? x) l = true).
+  { apply forallb_forall. intros x Hx. rewrite Forall_forall in Hl'. specialize (Hl' x Hx). cbv beta. lia. }
+  destruct (Z.ltb_spec v 40); [|destruct (Z.ltb_spec v 80)]; unfold enc_oid, oid_ok; rewrite Hfb.
+  - replace ((0 <=? 0) && (0 <=? 2) && (0 <=? v) && ((0 =? 2) || (v <? 40)) && true) with true by lia.
+    replace (40 * 0 + v) with v by lia. reflexivity.
+  - replace ((0 <=? 1) && (1 <=? 2) && (0 <=? v - 40) && ((1 =? 2) || (v - 40 <? 40)) && true) with true by lia.
+    replace (40 * 1 + (v - 40)) with v by lia. reflexivity.
+  - replace ((0 <=? 2) && (2 <=? 2) && (0 <=? v - 80) && ((2 =? 2) || (v - 80 <? 40)) && true) with true by lia.
+    replace (40 * 2 + (v - 80)) with v by lia. reflexivity.
+Qed.
+
 Example oid_krb5 : enc_oid [1; 2; 840; 113554; 1; 2; 2] = Some [42; 134; 72; 134; 247; 18; 1; 2; 2].
 Proof. vm_compute. reflexivity. Qed.
 Example oid_spnego : enc_oid [1; 3; 6; 1; 5; 5; 2] = Some [43; 6; 1; 5; 5; 2].
